@@ -2,6 +2,7 @@ package zonemodel
 
 import (
 	"fmt"
+	"math"
 	"strings"
 
 	"pgregory.net/rapid"
@@ -318,7 +319,28 @@ func (g *zgen) generate(st *State) Item {
 	typ := []uint16{TA, TAAAA, TCNAME, TNS, TPTR, TDNAME, TMX, TTXT}[g.n(8, "gtype")]
 	gn.Type = typ
 	// range
+	huge := false
 	switch k := g.n(20, "rk"); {
+	case (k == 15 || k == 16) && typ != TA && typ != TAAAA:
+		// numbers near the int64 / int32 / 16-bit limits; a few steps that end at or near the
+		// largest int64 (the iterator must stop there, not wrap around)
+		huge = true
+		big := []int64{math.MaxInt64, math.MaxInt64 - 1, math.MaxInt64 - 2, 1 << 62, 1<<62 + 1, 1 << 32, 1<<32 - 1, 1 << 31, 1<<31 - 1, 65536, 65535, 3, 2, 1}
+		gn.Start = append(big, 0)[g.n(len(big)+1, "hs")]
+		gn.Step = big[g.n(len(big), "hst")]
+		gn.Stop = gn.Start
+		for j := g.n(5, "hk"); j > 0 && gn.Stop <= math.MaxInt64-gn.Step; j-- {
+			gn.Stop += gn.Step
+		}
+		if room := math.MaxInt64 - gn.Stop; room > 0 && g.p(60, "hslack") {
+			slack := gn.Step - 1
+			if slack > room {
+				slack = room
+			}
+			if slack > 0 {
+				gn.Stop += []int64{1, slack, slack / 2}[g.n(3, "hsl")]
+			}
+		}
 	case k == 19 && g.o.BigGenerate && typ != TA && typ != TAAAA:
 		gn.Start = int64(g.n(3, "bs"))
 		gn.Step = int64(g.n(3, "bst") + 1)
@@ -344,6 +366,10 @@ func (g *zgen) generate(st *State) Item {
 		gn.Stop = gn.Start + l
 	}
 	iter := func() TPart {
+		if huge {
+			// modifiers are limited to 31-bit values; a bare iterator is not
+			return TPart{Kind: TIter}
+		}
 		maxOff := gn.Start // i+offset must stay >= 0
 		if maxOff > 20 {
 			maxOff = 20
@@ -501,8 +527,7 @@ func (g *zgen) advance(st *State, it *Item, depth int) error {
 			return invalid("range")
 		}
 		// every step must be valid: check the first, the last and one in the middle
-		last := it.Gen.Start + (it.Gen.Steps()-1)*it.Gen.Step
-		for _, v := range []int64{it.Gen.Start, last, it.Gen.Start + (it.Gen.Steps()/2)*it.Gen.Step} {
+		for _, v := range []int64{it.Gen.Start, it.Gen.Value(it.Gen.Steps() - 1), it.Gen.Value(it.Gen.Steps() / 2)} {
 			if _, err := st.generated(it.Gen, v); err != nil {
 				return err
 			}
